@@ -245,6 +245,12 @@ def impl_oracle(c):
             c["_followed"] = c.get("_followed", 0) + 1
             continue
         esc.append((p, b, a))
+    removed = [p for p, b, a in esc if a is None]
+    if removed and c.get("clear"):
+        return ("impl:escape:clear-deleted-outside",
+                "%s with clear=true into the destination spelled %r (= %s) deleted %s beside it (and %d more path(s)); "
+                "entries %r" % (op, (c.get("dest") or "").replace(c.get("sandbox") or "\0", "%S"), dest, removed[0],
+                                len(removed) - 1, [e["n"] for e in c.get("seen") or []]))
     if esc:
         p, b, a = esc[0]
         what = "created" if b is None else ("removed" if a is None else "modified")
@@ -382,7 +388,7 @@ def run(ck):
         sb = c.get("sandbox") or "\0"
         ck.count(c["stream"], key=(c["op"], c.get("a"), c.get("b"), (c.get("dest") or "").replace(sb, "%S"),
                                    (c.get("cwd") or "").replace(sb, "%S"), c.get("umask"),
-                                   c.get("clear"), c.get("via"), c.get("pre"), c.get("cut"), c.get("zarg"), c.get("zcwd"),
+                                   c.get("clear"), c.get("via"), c.get("drel"), c.get("pre"), c.get("cut"), c.get("zarg"), c.get("zcwd"),
                                    (c["i"] - c["seqof"]) if c.get("seqof") else None, json.dumps(c.get("setup")),
                                    json.dumps(c.get("seen")).replace(sb, "%S"),
                                    json.dumps(c.get("tree"))), trivial=trivial(c))
